@@ -94,7 +94,7 @@ SIZES = [1, 2, 3, 5, 8, 17, 34, 40, 45, 48, 67, 68, 69, 100, 128, 136, 255, 256]
 
 
 def pick_geometry(rnd, small=True):
-    blk = rnd.choice([64, 128, 256, 256, 512])
+    blk = rnd.choice([64, 128, 256, 256, 512, 192, 320])          # incl. erase sizes that are not powers of two
     extra = rnd.choice([68, 255, 256, 512, 777, 1024, 2304, 3000, 4096]) if small else rnd.choice([4096, 8192, 20000, 65536])
     slot = -(-(DRO + extra) // blk) * blk
     ns = rnd.choice([4, 4, 5, 6])
@@ -195,10 +195,13 @@ def prior_history(rnd, s, kinds):
         sz, n = rnd.choice([(8, 3), (40, 2), (5, 4), (1, 1)])
         img = ts004.make_image(rnd, n, sz)
         s.add("start %d %d" % (sz, n))
-        if kind == "cancel":
+        if kind in ("cancel", "abandon", "recover"):
             for i in range(1, rnd.randint(1, n) + 1):
                 s.add(seg_op(img, n, sz, i, False))
-            s.add("drop"); s.add("cancel")
+            s.add("drop")
+            if kind == "cancel": s.add("cancel")
+            if kind == "recover": s.add("recover"); s.add("drop")      # resumed (stale parity slots remediated), then left behind
+            # "abandon": started over without cancel - its headers stay in progress until the next recovery / cancel
         else:
             for i in range(1, n + 1):
                 s.add(seg_op(img, n, sz, i, False))
@@ -226,7 +229,7 @@ def build_delivery(rnd, ffr=False, small=True, with_history=True, wrapped=False)
         prior_history(rnd, s, ["confirm", "confirm"])
         s.meta["history"] = ["confirm", "confirm", "(pair wraps the ring end)"]
     elif with_history and rnd.random() < 0.6:
-        kinds = [rnd.choice(["confirm", "confirm", "reject", "cancel"]) for _ in range(rnd.randint(1, 5))]
+        kinds = [rnd.choice(["confirm", "confirm", "reject", "cancel", "abandon", "recover"]) for _ in range(rnd.randint(1, 5))]
         prior_history(rnd, s, kinds)
         s.meta["history"] = kinds
     cap = max_l(slot, sz)
